@@ -474,6 +474,37 @@ func runC12(p *Prog, l *Ledger) {
 								sizeOK = true
 							}
 						}
+						// a method of the limiter that only forwards to the length accessor of its own backlog
+						if r := boundReceiver(mc); r != nil && !sizeOK {
+							if fw := p.unwrap(mc.Fn.(*ssa.Function)); fw != nil && len(fw.Params) == 1 && len(fw.Blocks) > 0 {
+								if rt := derefNamed(fw.Params[0].Type()); rt != nil && types.Identical(rt, nt) {
+									forwards, nret := true, 0
+									allInstrs(fw, func(i2 ssa.Instruction) {
+										ret, isRet := i2.(*ssa.Return)
+										if !isRet {
+											return
+										}
+										nret++
+										if len(ret.Results) != 1 {
+											forwards = false
+											return
+										}
+										fc, isCall := strip(ret.Results[0], false).(*ssa.Call)
+										if !isCall || p.CallOf(fc).Static != lenFn {
+											forwards = false
+											return
+										}
+										fr, base, ok := fieldPointerLoad(p.CallOf(fc).Recv)
+										if !ok || !sameField(fr, blf) || strip(base, false) != ssa.Value(fw.Params[0]) {
+											forwards = false
+										}
+									})
+									if forwards && nret > 0 {
+										sizeOK = true
+									}
+								}
+							}
+						}
 					}
 				case "queue_limit":
 					limitAt = ins
